@@ -18,7 +18,7 @@ import (
 // ahead of older pending internal events, internal events reordered).
 
 type c04Arg struct {
-	Init  string `json:"init"`  // fresh | seeded | partial
+	Init  string `json:"init"`  // fresh | seeded | partial | leeching (running, a peer holding only piece 0 connected, MaxPeerDial 1)
 	Depth int    `json:"depth"` // number of alphabet operations
 }
 
@@ -42,7 +42,7 @@ func mkC04() *Scenario {
 	sc := &Scenario{Name: "c04", Horizon: 700}
 	st := &c04State{}
 	var arg c04Arg
-	var p1 *Peer
+	var p1, p0 *Peer
 	var tr *ScriptTracker
 	connectSeed := func(w *World) {
 		if err := p1.ConnectIn(w.Tor.VerifState().Port, w.G.InfoHash); err != nil {
@@ -51,6 +51,9 @@ func mkC04() *Scenario {
 	}
 	sc.Setup = func(w *World) {
 		json.Unmarshal(w.Arg, &arg)
+		if arg.Init == "leeching" {
+			w.Cfg.MaxPeerDial = 1
+		}
 		w.OpenSession()
 		g := Gen(c04Layout())
 		w.AddTorrent(g, nil)
@@ -60,6 +63,24 @@ func mkC04() *Scenario {
 		w.Vars["std"] = &StdOpts{Behaviour: map[string]*PeerBehaviour{"p1": {Honest: true}}}
 		// initial state: reached by a fixed eager prefix executed here (not part of the explored history)
 		switch arg.Init {
+		case "leeching":
+			// running torrent with one connected peer that has only piece 0: stays Downloading with a live peer
+			p0 = w.NewPeer("p0", "10.0.0.9", 5009)
+			w.stdOpts().Behaviour["p0"] = &PeerBehaviour{Honest: true, Have: []byte{0x80}}
+			w.DialHang("10.0.0.78:6000")
+			w.DialHang("10.0.0.79:6000")
+			w.CmdStart()
+			w.drain(200)
+			if err := p0.ConnectIn(w.Tor.VerifState().Port, w.G.InfoHash); err != nil {
+				core.HarnessError("c04 setup: %v", err)
+			}
+			w.drain(400)
+			if s := w.Tor.VerifState(); s.Status != "Downloading" || bitCount(s.Bitfield) != 1 || s.Peers != 1 {
+				if len(w.Fails) == 0 {
+					core.HarnessError("c04 setup did not reach the leeching initial state: %+v", s)
+				}
+			}
+			w.Cmds = nil
 		case "seeded", "partial":
 			w.CmdStart()
 			w.drain(200)
@@ -104,6 +125,13 @@ func mkC04() *Scenario {
 		}
 		add("Announce", func(w *World) { w.Launch("Announce", func() any { w.Tor.Announce(); return nil }) })
 		add("AddPeer", func(w *World) { w.Launch("AddPeer", func() any { return w.Tor.AddPeer("10.0.0.77:6000") }) })
+		if arg.Init == "leeching" {
+			// two addresses whose dials stay in flight; with MaxPeerDial 1 the second one waits in the address list
+			add("AddPeers2", func(w *World) {
+				w.Launch("AddPeer", func() any { return w.Tor.AddPeer("10.0.0.78:6000") })
+				w.Launch("AddPeer", func() any { return w.Tor.AddPeer("10.0.0.79:6000") })
+			})
+		}
 		if s.Status == "Stopped" && w.Store.OpenHandles(w.Tor.ID()) == 0 && len(w.Store.FileNames(w.Tor.ID())) > 0 {
 			id := w.Tor.ID()
 			add("Corrupt0", func(w *World) {
@@ -326,12 +354,13 @@ func TestC04(t *testing.T) {
 	if core.Thorough() {
 		depth, devs = 4, 1
 	}
-	rep.Rule = fmt.Sprintf("every sequence of %d operations over {Start,Stop,Verify,Seed,Announce,AddPeer,Corrupt0,DeleteFile1,DeleteAll} (enabled ones) from initial states {fresh, seeded+stopped, partial+stopped}, each followed by the convergence suffix; plus every execution with <=%d race deviation (a command delivered before the drain finished, or a younger internal event before an older one)", depth, devs)
+	rep.Rule = fmt.Sprintf("every sequence of %d operations over {Start,Stop,Verify,Seed,Announce,AddPeer,Corrupt0,DeleteFile1,DeleteAll} (enabled ones) from initial states {fresh, seeded+stopped, partial+stopped} and of one operation less (plus AddPeers2: two addresses with hanging dials, MaxPeerDial 1) from {leeching: running with a connected peer that holds one piece}, each followed by the convergence suffix; plus every execution with <=%d race deviation (a command delivered before the drain finished, or a younger internal event before an older one)", depth, devs)
 	rep.Assumptions = []string{"one torrent, one honest seed, one auto-answering tracker", "handlers are atomic (loop ownership; checked by C20)", "workers run to their next blocking point after every action"}
 	var runs []Run
 	for _, init := range []string{"fresh", "seeded", "partial"} {
 		runs = append(runs, Run{Scenario: "c04", Arg: c04Arg{Init: init, Depth: depth}, Budget: devs, MaxExec: 400000})
 	}
+	runs = append(runs, Run{Scenario: "c04", Arg: c04Arg{Init: "leeching", Depth: depth - 1}, Budget: devs, MaxExec: 400000})
 	Explore("TestC04", rep, runs)
 	rep.Finish()
 }
